@@ -24,11 +24,12 @@ struct Rule {
     sel: String,
     decls: Vec<(String, String, bool)>,
 }
-pub const REWRITES: [&str; 28] = [
+pub const REWRITES: [&str; 33] = [
     "base", "minified", "pretty-printed", "comments at token boundaries", "final semicolon dropped", "final semicolon doubled", "unknown property first", "unknown property last",
     "upper-case property names", "upper-case hex digits", "@media block before", "@import before", "unparsable rule set q{{}} before", "unparsable rule set !!!{..} before",
     "@media block between rules", "unparsable rule set between rules", "@media block after", "unsupported pseudo-class rule before", "unsupported pseudo-class rule between",
     "inner semicolon doubled", "unparsable rule set after", "bare @ after", "garbage after", "whitespace before semicolons", "comment before semicolons", "CRLF and tabs", "leading semicolon in blocks", "unknown at-rule statement between rules",
+    "final semicolon doubled with a space between", "final semicolon doubled with a newline between", "final semicolon doubled with a comment between", "inner semicolons doubled with whitespace between", "two leading semicolons with a space between",
 ];
 fn render_sheet(rules: &[Rule], v: usize) -> String {
     let mut s = String::new();
@@ -66,6 +67,9 @@ fn render_sheet(rules: &[Rule], v: usize) -> String {
         if v == 26 {
             s += ";";
         }
+        if v == 32 {
+            s += "; ; ";
+        }
         if v == 6 {
             s += &format!("frob:{sp}nicate;{nl}");
         }
@@ -85,6 +89,18 @@ fn render_sheet(rules: &[Rule], v: usize) -> String {
             }
             if last && v == 5 {
                 s += ";";
+            }
+            if last && v == 28 {
+                s += " ;";
+            }
+            if last && v == 29 {
+                s += "\n;\n";
+            }
+            if last && v == 30 {
+                s += "/**/;";
+            }
+            if !last && v == 31 {
+                s += " \t;";
             }
             if !last && v == 19 {
                 s += ";";
@@ -311,7 +327,7 @@ impl Scope for S {
     }
     fn info(&self) -> Info {
         Info {
-            rule: "(a) every sequence of soup_len tokens over the 30-token CSS alphabet (last position also over 12 extra tokens: CDO/CDC, numeric limits, 1e999, newline, @media) through add_css (all), add_agent_css (every 4th prefix) and, for sequences with a short prefix, <style> and the style attribute; every truncation of 5 spellings of every rule set; :nth-child with 13x13 extreme coefficient pairs in 6 argument forms incl. matching; (b) every rule set of 1..2 (thorough 3) rules x 27 syntax rewrites x routes: rich output must be identical; non-trivial = rewrite changed the bytes / soup contains a block or is rejected".into(),
+            rule: "(a) every sequence of soup_len tokens over the 30-token CSS alphabet (last position also over 12 extra tokens: CDO/CDC, numeric limits, 1e999, newline, @media) through add_css (all), add_agent_css (every 4th prefix) and, for sequences with a short prefix, <style> and the style attribute; every truncation of 5 spellings of every rule set; :nth-child with 13x13 extreme coefficient pairs in 6 argument forms incl. matching; (b) every rule set of 1..2 (thorough 3) rules x 32 syntax rewrites x routes: rich output must be identical; non-trivial = rewrite changed the bytes / soup contains a block or is rejected".into(),
             bounds: json!({"soup_length": self.soup_len, "alphabet": TOKENS, "extra_last_tokens": TOKENS2, "rule_sets": self.n_eq, "rewrites": REWRITES[1..].to_vec(), "truncated_rule_sets": self.n_trunc, "nth_pairs": self.n_nth}),
             assumptions: vec!["the token alphabet cannot spell display/content/white-space declarations, so junk CSS cannot legitimately change the text".into()],
         }
